@@ -532,9 +532,53 @@ def search_padding(ctx, P, n):
     return None
 
 
+def search_many_streams(ctx, P):
+    """MANY streams with an unfinished message at once (the property is about any number of streams): a message whose
+    first frame arrived before M other streams started theirs still completes when its remaining frames arrive; a new
+    stream's message is delivered; a stream from the middle completes too."""
+    rng = ctx.rng
+    pad = lambda k: [0xFF] * k  # noqa: E731
+    for M in (70, 140, 300):
+        srcs = list(range(0, 252))
+        rng.shuffle(srcs)
+        keys = [(130816, s_, 255) for s_ in srcs] + [(126720, s_, rng.choice([255, 17, 0])) for s_ in srcs]
+        rng.shuffle(keys)
+        first = Episode(keys[0], rng.randrange(8), fallback_payload(rng, keys[0][0], 20, P), pad)
+        ev = [(first.key, first.frames[0], ("first", first))]
+        others = []
+        for k in keys[1:M + 1]:
+            ep = Episode(k, rng.randrange(8), fallback_payload(rng, k[0], rng.choice([13, 20, 27]), P), pad)
+            others.append(ep)
+            ev.append((ep.key, ep.frames[0], ("first", ep)))
+            if rng.random() < 0.3 and len(ep.frames) > 2:
+                ev.append((ep.key, ep.frames[1], ("own", ep, 1)))
+        for j in range(1, len(first.frames)):
+            ev.append((first.key, first.frames[j], ("own", first, j)))
+        new = Episode(keys[M + 2], rng.randrange(8), fallback_payload(rng, keys[M + 2][0], 20, P), pad)
+        ev += _episode_events(rng, new, list(range(1, len(new.frames))))
+        mid = others[len(others) // 2]
+        sent = {e[2][2] for e in ev if e[0] == mid.key and e[2][0] == "own"}
+        for j in range(1, len(mid.frames)):
+            if j not in sent:
+                ev.append((mid.key, mid.frames[j], ("own", mid, j)))
+        last = others[-1]
+        sent = {e[2][2] for e in ev if e[0] == last.key and e[2][0] == "own"}
+        for j in range(1, len(last.frames)):
+            if j not in sent:
+                ev.append((last.key, last.frames[j], ("own", last, j)))
+        w = check_history(ev, f"{M} streams with an unfinished message at once")
+        if w:
+            w["key"] = "many-streams:" + w["key"]
+            return w
+    return None
+
+
 def search(ctx):
     import nmea2000.pgns as P
     out = []
+    w = search_many_streams(ctx, P)
+    if w:
+        out.append(w)
     # replay disagreements of the correspondence first: classify them with the property oracle where possible
     w = search_padding(ctx, P, ctx.n(40, 400))
     if w:
